@@ -159,6 +159,34 @@ def aggregate_oracle(prog, out):
 
 # ---- re-evaluation with a changed argument
 REEVAL = """from inline_snapshot import snapshot
+from dataclasses import dataclass, field
+from collections import namedtuple
+from enum import Enum
+
+
+@dataclass
+class Event:
+    a: int
+
+
+@dataclass
+class AuditEvent(Event):
+    pass
+
+
+class Color(str, Enum):
+    red = "red"
+
+
+@dataclass
+class Point:
+    x: int = 0
+    y: int = 0
+    tags: list = field(default_factory=list)
+    labels: list = field(default_factory=list)
+
+
+NT = namedtuple("NT", "x y", defaults=[0, 0])
 R = []
 G = [{first}]
 
@@ -194,6 +222,11 @@ def reeval_cases():
         out.append({"first": a, "second": b, "cmp1": f"{a} == site()", "cmp2": f"{b} == site()", "mut": mut})
         if a.startswith("["):
             out.append({"first": a, "second": b, "cmp1": "3 in site()", "cmp2": "3 in site()", "mut": mut})
+    # the argument evaluates to an instance of a SUBCLASS with the same fields, to an equal value of another type, to a value whose non-default fields moved
+    for a, b in (("Event(a=1)", "AuditEvent(a=1)"), ("[Event(a=1)]", "[AuditEvent(a=1)]"), ("{'k': Event(a=1)}", "{'k': AuditEvent(a=1)}"), ("'red'", "Color.red"), ("1", "True"), ("[1]", "[True]"),
+                 ("Point(x=3, y=0)", "Point(x=0, y=3)"), ("Point(x=3)", "Point(y=3)"), ("[Point(x=3, y=0, tags=[1])]", "[Point(x=3, y=0, labels=[1])]"),
+                 ("NT(x=3, y=0)", "NT(x=0, y=3)"), ("Point(x=3, y=0)", "Point(x=3, y=0)"), ("NT(x=3)", "NT(x=3, y=0)")):
+        out.append({"first": a, "second": b, "cmp1": f"{a} == site()", "cmp2": f"{b} == site()", "mut": f"G[0] = {b}", "same": a == b or (a, b) == ("NT(x=3)", "NT(x=3, y=0)")})
     # the KEYS of a dict display are part of the value too
     for a, b in (("{'a': 1}", "{'b': 1}"), ("{'a': 1, 'z': 2}", "{'b': 1, 'z': 2}"), ("[{'a': [1]}]", "[{'b': [1]}]"), ("{(1, 0): 'v'}", "{(2, 0): 'v'}"), ("{'a': 1, 'b': 2}", "{'b': 2, 'a': 1}")):
         out.append({"first": a, "second": b, "cmp1": f"{a} == site()", "cmp2": f"{b} == site()", "mut": f"G[0] = {b}"})
@@ -400,7 +433,7 @@ def run(ctx: Ctx):
     for c, o in zip(rc, pmap(run_reeval, rc)):
         ctx.count(("reeval", repr(c)), True)
         R = o["R"] or []
-        changed = c["first"] != c["second"]
+        changed = c["first"] != c["second"] and not c.get("same")
         if changed:
             if not R or R[-1] != ("exc", "UsageError"):
                 ctx.report(f"argument re-evaluates from {c['first']} to {c['second']}: expected UsageError, got {R}", {"kind": "reeval", "case": c},
